@@ -4,6 +4,7 @@ import (
 	"context"
 	"fmt"
 	"sync"
+	"sync/atomic"
 	"time"
 
 	"github.com/puzpuzpuz/xsync/v4"
@@ -24,6 +25,8 @@ type UnifiedMemoryModelRegistry struct {
 	globalUnified     *xsync.Map[string, *domain.UnifiedModel]         // UnifiedID -> UnifiedModel (merged across endpoints)
 	endpoints         *xsync.Map[string, *domain.Endpoint]             // URL -> Endpoint mapping
 	modelEndpointSets *xsync.Map[string, *xsync.Map[string, struct{}]] // ModelID -> Set of endpoint URLs (cached for fast lookup)
+	latestListing     *xsync.Map[string, uint64]                       // URL -> sequence number of the endpoint's latest registration
+	listingSeq        atomic.Uint64
 	unificationMutex  sync.Mutex
 }
 
@@ -87,6 +90,7 @@ func NewUnifiedMemoryModelRegistry(logger logger.StyledLogger, unificationConfig
 		globalUnified:       xsync.NewMap[string, *domain.UnifiedModel](),
 		endpoints:           xsync.NewMap[string, *domain.Endpoint](),
 		modelEndpointSets:   xsync.NewMap[string, *xsync.Map[string, struct{}]](),
+		latestListing:       xsync.NewMap[string, uint64](),
 	}
 }
 
@@ -120,16 +124,28 @@ func (r *UnifiedMemoryModelRegistry) RegisterModels(ctx context.Context, endpoin
 		}
 	}
 
-	// Then unify them
-	go r.unifyModelsAsync(ctx, endpointURL, models)
+	// Then unify them. Unification runs in the background and several rounds for one endpoint
+	// may be in flight: only the latest listing of an endpoint may shape the catalogue.
+	seq := r.listingSeq.Add(1)
+	r.latestListing.Store(endpointURL, seq)
+	go r.unifyModelsAsync(ctx, endpointURL, models, seq)
 
 	return nil
 }
 
 // unifyModelsAsync performs model unification in the background
-func (r *UnifiedMemoryModelRegistry) unifyModelsAsync(ctx context.Context, endpointURL string, models []*domain.ModelInfo) {
+func (r *UnifiedMemoryModelRegistry) unifyModelsAsync(ctx context.Context, endpointURL string, models []*domain.ModelInfo, seq uint64) {
 	r.unificationMutex.Lock()
 	defer r.unificationMutex.Unlock()
+
+	// a newer listing (or a removal) of this endpoint superseded this one
+	if latest, ok := r.latestListing.Load(endpointURL); ok && latest != seq {
+		return
+	}
+
+	// the new listing replaces the previous one: models the endpoint no longer lists
+	// must not keep it as a source
+	r.removeEndpointFromUnifiedLocked(endpointURL)
 
 	// Get or create endpoint object
 	endpoint, exists := r.endpoints.Load(endpointURL)
@@ -315,6 +331,17 @@ func (r *UnifiedMemoryModelRegistry) RemoveEndpoint(ctx context.Context, endpoin
 	r.unificationMutex.Lock()
 	defer r.unificationMutex.Unlock()
 
+	// supersede unification rounds still in flight for this endpoint
+	r.latestListing.Store(endpointURL, r.listingSeq.Add(1))
+
+	r.removeEndpointFromUnifiedLocked(endpointURL)
+
+	return nil
+}
+
+// removeEndpointFromUnifiedLocked drops the endpoint as a source from every unified model
+// and refreshes the cached endpoint sets. Callers hold unificationMutex.
+func (r *UnifiedMemoryModelRegistry) removeEndpointFromUnifiedLocked(endpointURL string) {
 	// Remove endpoint from all unified models
 	r.globalUnified.Range(func(id string, model *domain.UnifiedModel) bool {
 		// we're capturing model metadata BEFORE mutation to avoid accessing empty slices
@@ -359,8 +386,6 @@ func (r *UnifiedMemoryModelRegistry) RemoveEndpoint(ctx context.Context, endpoin
 		}
 		return true
 	})
-
-	return nil
 }
 
 // GetHealthyEndpointsForModel returns healthy endpoints that have a specific model
